@@ -166,15 +166,17 @@ func (a *analysis) features() string {
 	if !a.finalEOL {
 		s += ",no-final-eol"
 	}
+	return s + "," + a.bodyShape()
+}
+
+func (a *analysis) bodyShape() string {
 	switch {
 	case a.nFull == 0 && !a.short:
-		s += ",empty-body"
+		return "empty-body"
 	case a.short:
-		s += ",short-last"
-	default:
-		s += ",full-only"
+		return "short-last"
 	}
-	return s
+	return "full-only"
 }
 
 var pemHeaderRE = regexp.MustCompile(`^[A-Za-z][A-Za-z0-9-]*:`)
@@ -472,17 +474,21 @@ func judge(text, out []byte, err error) (v verdict) {
 			v.what = fmt.Sprintf("accepted, but returned %d bytes %x where the reference decoder returns %d bytes %x", len(out), trunc(out, 64), len(ref), trunc(ref, 64))
 			return
 		}
+		// The text is in the grammar and the bytes are right, so the reference
+		// armoring of the bytes is what the text must normalise to (anything
+		// else is a bug in normalise, not in the library); what is left to check
+		// is that the real writer produces exactly that.
 		re, rerr := rearmor(out)
+		canon, norm := refage.Armor(out, "\n"), normalise(text)
 		switch {
+		case !bytes.Equal(canon, norm):
+			v.modelBug = fmt.Sprintf("normalise gives %s, the reference armoring of the decoded bytes is %s", quote(norm), quote(canon))
 		case rerr != nil:
-			v.key = "rearmor-failed:" + an.features()
+			v.key = "rearmor-failed:" + an.bodyShape()
 			v.what = "re-armoring the decoded bytes failed: " + rerr.Error()
-		case !bytes.Equal(re, normalise(text)):
-			v.key = "not-canonical-roundtrip:" + an.features()
-			v.what = fmt.Sprintf("accepted, but re-armoring the %d decoded bytes gives %s while the text normalises to %s", len(out), quote(re), quote(normalise(text)))
-		case !bytes.Equal(re, refage.Armor(out, "\n")):
-			v.key = "rearmor-differs-from-reference:" + an.features()
-			v.what = fmt.Sprintf("the writer armors %d bytes to %s, the reference to %s", len(out), quote(re), quote(refage.Armor(out, "\n")))
+		case !bytes.Equal(re, norm):
+			v.key = "not-canonical-roundtrip:" + an.bodyShape()
+			v.what = fmt.Sprintf("accepted, but re-armoring the %d decoded bytes gives %s while the text normalises to %s", len(out), quote(re), quote(norm))
 		}
 		switch {
 		case v.key != "":
